@@ -77,7 +77,7 @@ def check(ctx: Ctx, ev: Evidence) -> list[Finding]:
                 mdo = h.ew(x.watch, "_params.fp.metadata_only")
                 ok = (tr == 0 and mm is False) or disp == "CANCELED" or mdo is True
                 # a fault-triggered cancellation sets the step before the disposition (same function)
-                if not ok and fn == "_notice_of_cancellation":
+                if not ok:
                     later = [y for y in evs[i + 1:i + 4] if y.kind == "store" and y.name == "_DestFieldWrapper.completion_disposition" and ename(y.args[0]) == "CANCELED"]
                     ok = bool(later)
                     disp = "CANCELED (next statement)" if ok else disp
